@@ -191,6 +191,17 @@ func (e *cenv) readAddr(a *Addr) cval {
 				e.vc.typingFact(rf)
 			}
 		}
+		// heap well-formedness: a reference stored in the heap designates an object
+		// allocated in that state
+		alloc := e.vc.look(e.cur, "$alloc")
+		switch a.Typ.Underlying().(type) {
+		case *types.Pointer, *types.Map, *types.Chan:
+			e.vc.typingFact(fmt.Sprintf("(<= %s %s)", t, alloc))
+		case *types.Interface:
+			e.vc.typingFact(fmt.Sprintf("(<= (i_val %s) %s)", t, alloc))
+		case *types.Slice:
+			e.vc.typingFact(fmt.Sprintf("(<= (s_base %s) %s)", t, alloc))
+		}
 	}
 	return cval{t: t, sort: a.Sort, typ: a.Typ, addr: a}
 }
@@ -735,6 +746,12 @@ func (e *cenv) callExpr(x *ECall) cval {
 			return cval{t: vc.unbox("(i_val "+a.t+")", t.typ), sort: vc.sortOf(t.typ), typ: t.typ}
 		}
 		return cval{t: a.t, sort: a.sort, typ: t.typ}
+	case "implements":
+		// implements(x, type(I)): the dynamic type of interface value x implements I (and x is non-nil)
+		if !need(2) {
+			return boolv("true")
+		}
+		return boolv(fmt.Sprintf("(and (not (= (i_type %s) 0)) (implements (i_type %s) %s))", arg(0).t, arg(0).t, arg(1).t))
 	case "istype":
 		if !need(2) {
 			return boolv("true")
@@ -1129,6 +1146,9 @@ func (vc *VC) modVarsOfExpr(m Expr, fn *ssa.Function, k *FuncContract, sigs ...*
 		}
 	}
 	ok = true
+	if k != nil {
+		env.evalLets(k)
+	}
 	func() {
 		defer func() {
 			if recover() != nil {
